@@ -23,7 +23,7 @@ CONSTANTS Nodes,          \* all storage nodes (ensemble members + spares)
           InitEnsemble,   \* initial ensemble
           Values,         \* client payloads
           NULL,
-          MaxTerm, MaxWrites, MaxCrash, MaxReset, MaxCoCrash, MaxSwap, MaxLate,
+          MaxTerm, MaxWrites, MaxCrash, MaxReset, MaxCoCrash, MaxSwap, MaxLate, MaxStreams,
           \* switches: TRUE = repaired behaviour, FALSE = what the code did at the pinned commit
           DupAckSynced,   \* follower acknowledges a duplicate only once the entry is synced
           SyncedHead,     \* NewTerm syncs the WAL before it reads the head entry
@@ -34,12 +34,12 @@ CONSTANTS Nodes,          \* all storage nodes (ensemble members + spares)
           QuorumAcks           \* acks required = RF \div 2  (FALSE: one less)
 
 VARIABLES
-    up, ctrl, status, term, wal, synced, applied, dur, lead, fol,   \* storage nodes
+    up, ctrl, status, term, wal, phantom, synced, applied, dur, lead, fol,   \* storage nodes
     streams, sid,                                                  \* wire
     co, meta, ntq, ntr,                                            \* coordinator
     acked, nwrites, hcommit, leaders, fence, kf, budget            \* clients / history
 
-nodeVars == <<up, ctrl, status, term, wal, synced, applied, dur, lead, fol>>
+nodeVars == <<up, ctrl, status, term, wal, phantom, synced, applied, dur, lead, fol>>
 wireVars == <<streams, sid>>
 coVars   == <<co, meta, ntq, ntr>>
 histVars == <<acked, nwrites, hcommit, leaders, fence, kf, budget>>
@@ -50,6 +50,8 @@ vars == <<nodeVars, wireVars, coVars, histVars>>
 (* status  [Nodes -> {"NOT_MEMBER","FENCED","FOLLOWER","LEADER"}]                          *)
 (* term    [Nodes -> 0..MaxTerm]  term of the controller (volatile copy of dur.term)       *)
 (* wal     [Nodes -> Seq([t, v])];  synced [Nodes -> Nat] = LastOffset()                   *)
+(* phantom [Nodes -> Nat]  the first phantom[n] entries of wal[n] are not physically in the *)
+(*         WAL: the node installed a snapshot that covers them (its WAL starts after them) *)
 (* applied [Nodes -> Seq([t, v])]  entries applied to the DB; Len = DB commit offset       *)
 (* dur     [Nodes -> [term, applied]]  durable image of the DB (Pebble runs without WAL)   *)
 (* lead    leader-only volatile state or NULL:                                             *)
@@ -88,6 +90,7 @@ Init ==
     /\ status = [n \in Nodes |-> "NOT_MEMBER"]
     /\ term = [n \in Nodes |-> 0]
     /\ wal = [n \in Nodes |-> <<>>]
+    /\ phantom = [n \in Nodes |-> 0]
     /\ synced = [n \in Nodes |-> 0]
     /\ applied = [n \in Nodes |-> <<>>]
     /\ dur = [n \in Nodes |-> [term |-> 0, applied |-> <<>>]]
@@ -95,7 +98,7 @@ Init ==
     /\ fol = [n \in Nodes |-> NULL]
     /\ streams = [k \in StreamKeys |-> NULL]
     /\ sid = 0
-    /\ co = [phase |-> "idle", resp |-> [n \in Nodes |-> NULL], leader |-> NULL,
+    /\ co = [phase |-> "idle", leader |-> NULL,
              fmap |-> [n \in Nodes |-> NULL], retry |-> {}]
     /\ meta = [term |-> 0, ens |-> InitEnsemble, removed |-> {}, leader |-> NULL, st |-> "unknown"]
     /\ ntq = {} /\ ntr = {}
@@ -120,7 +123,8 @@ NewTermOutcome(n, t) ==
 
 \* faithful (SyncedHead = FALSE): getLastEntryIdInWal reads through a reverse reader bounded by
 \* LastOffset() = last *synced* offset, so an appended-but-unsynced tail is not reported
-ReportedHead(n) == IF SyncedHead THEN LastEntryOf(wal[n], Len(wal[n])) ELSE LastEntryOf(wal[n], synced[n])
+ReportedHead(n) == LET k == IF SyncedHead THEN Len(wal[n]) ELSE synced[n] IN
+                   IF k <= phantom[n] THEN NoHead ELSE LastEntryOf(wal[n], k)
 
 HandleNewTerm(n, t) ==
     /\ up[n] /\ [n |-> n, t |-> t] \in ntq /\ ~Busy(n)
@@ -148,7 +152,7 @@ HandleNewTerm(n, t) ==
             /\ term' = [term EXCEPT ![n] = IF ctrl[n] = "none" THEN DiskTerm(n) ELSE @]
             /\ status' = [status EXCEPT ![n] = IF ctrl[n] = "none" THEN DiskStatus(n) ELSE @]
             /\ UNCHANGED <<synced, dur, lead, fol, streams, fence, kf>>
-    /\ UNCHANGED <<up, wal, applied, sid, co, meta, acked, nwrites, hcommit, leaders, budget>>
+    /\ UNCHANGED <<up, wal, phantom, applied, sid, co, meta, acked, nwrites, hcommit, leaders, budget>>
 
 ----------------------------------------------------------------------------
 (***************************************************************************)
@@ -157,14 +161,14 @@ HandleNewTerm(n, t) ==
 (* quorum_ack_tracker.go:NewCursorAcker)                                   *)
 (***************************************************************************)
 \* highest entry of w (first k entries) whose term is <= t     (getHighestEntryOfTerm)
-HighestOfTerm(w, k, t) ==
-    LET S == {i \in 1..k : w[i].t <= t} IN IF S = {} THEN NoHead ELSE LastEntryOf(w, Max(S))
+HighestOfTerm(w, ph, k, t) ==
+    LET S == {i \in (ph + 1)..k : w[i].t <= t} IN IF S = {} THEN NoHead ELSE LastEntryOf(w, Max(S))
 
 \* truncateFollowerIfNeeded: "keep" (attach at fh.o), "trunc" (Truncate RPC to offset .to), "refuse"
-TruncDecision(w, k, eh, fh) ==
+TruncDecision(w, ph, k, eh, fh) ==
     IF fh.t = eh.t /\ fh.o <= eh.o THEN [d |-> "keep", to |-> fh.o]
     ELSE IF fh.t > eh.t THEN [d |-> "refuse", to |-> 0]
-    ELSE LET h == HighestOfTerm(w, k, fh.t) IN
+    ELSE LET h == HighestOfTerm(w, ph, k, fh.t) IN
          IF fh.t = h.t /\ fh.o <= h.o THEN [d |-> "keep", to |-> fh.o]
          ELSE [d |-> "trunc", to |-> h.o]       \* faithful: only the offset reaches wal.TruncateLog
 
@@ -183,8 +187,9 @@ AttachAll(n, t, todo, x) ==
     ELSE LET f   == CHOOSE y \in todo : TRUE
              fh  == x.fmap[f]
              ld  == x.ld
-             dec == TruncDecision(x.wal[n], x.synced[n], ld.elHead, fh)
-             a   == dec.to
+             dec == TruncDecision(x.wal[n], phantom[n], x.synced[n], ld.elHead, fh)
+             \* a truncation at or below the follower's snapshot point empties its WAL (TruncateLog below FirstOffset)
+             a   == IF dec.d = "trunc" /\ dec.to <= x.phantom[f] THEN 0 ELSE dec.to
              acks2 == AcksWith(ld.acks, ld.commit, a, f)
              ld2 == [ld EXCEPT !.acks = acks2,
                                !.cur = [@ EXCEPT ![f] = [ack |-> a, pushed |-> a, sid |-> 0]],
@@ -201,19 +206,21 @@ AttachAll(n, t, todo, x) ==
                              /\ ~(x.ctrl[f] = "leader" /\ x.term[f] # t)      \* late request must not close a leader
                              /\ ~(x.ctrl[f] = "leader" /\ Busy(f))
                              /\ fst = "FENCED" /\ ftm = t
-                             /\ a <= Len(x.wal[f])                              \* else wal.TruncateLog: out of bounds
+                             /\ dec.to <= Len(x.wal[f])                         \* else wal.TruncateLog: out of bounds
                              /\ NoParkedSync(f)
                  IN IF ~okT THEN [x EXCEPT !.ok = FALSE]
                     ELSE AttachAll(n, t, todo \ {f},
                            [x EXCEPT !.ld = ld2,
                                      !.wal = [@ EXCEPT ![f] = Prefix(@, a)],
+                                     !.phantom = [@ EXCEPT ![f] = IF a = 0 THEN 0 ELSE @],
                                      !.synced = [@ EXCEPT ![f] = a],
                                      !.status = [@ EXCEPT ![f] = "FOLLOWER"],
                                      !.term = [@ EXCEPT ![f] = t],
                                      !.ctrl = [@ EXCEPT ![f] = "follower"],
                                      !.fol = [@ EXCEPT ![f] = [lastApp |-> a, adv |-> 0, stream |-> 0, parked |-> {}]],
                                      !.lead = [@ EXCEPT ![f] = NULL],
-                                     !.truncated = @ \cup {f}])
+                                     !.truncated = @ \cup {f},
+                                     !.below = @ \/ a < Len(applied[f])])
 
 BecomeLeaderOutcome(n, t) ==
     LET create == ctrl[n] # "leader"
@@ -225,41 +232,41 @@ BecomeLeaderOutcome(n, t) ==
 BLBegin(n, t, rf, fm) ==
     LET create == ctrl[n] # "leader"                       \* a follower controller is closed first: clean close
         syn0 == IF create THEN Len(wal[n]) ELSE synced[n]
-        eh == LastEntryOf(wal[n], syn0)
+        eh == IF syn0 <= phantom[n] THEN NoHead ELSE LastEntryOf(wal[n], syn0)
         ld0 == [rf |-> rf, elHead |-> eh, next |-> eh.o, head |-> eh.o, commit |-> Len(applied[n]),
                 acks |-> [o \in 1..MaxWrites |-> {}], cur |-> [f \in Nodes |-> NULL],
                 cbq |-> {}, wait |-> {}, busy |-> TRUE]
-        x0 == [ok |-> TRUE, ld |-> ld0, fmap |-> fm, wal |-> wal, synced |-> [synced EXCEPT ![n] = syn0],
+        x0 == [ok |-> TRUE, ld |-> ld0, fmap |-> fm, wal |-> wal, phantom |-> phantom, synced |-> [synced EXCEPT ![n] = syn0],
                status |-> [status EXCEPT ![n] = "FENCED"], term |-> [term EXCEPT ![n] = t],
                ctrl |-> [ctrl EXCEPT ![n] = "leader"], fol |-> [fol EXCEPT ![n] = NULL],
-               lead |-> lead, truncated |-> {}]
+               lead |-> lead, truncated |-> {}, below |-> FALSE]
     IN AttachAll(n, t, {f \in Nodes : fm[f] # NULL}, x0)
 
-\* assign the node/wire variables from an attach result; the leader record gets busy = b
-ApplyAttach(n, x, b, dropOwn) ==
-    /\ wal' = x.wal /\ synced' = x.synced /\ ctrl' = x.ctrl /\ term' = x.term /\ status' = x.status
-    /\ lead' = [x.lead EXCEPT ![n] = [x.ld EXCEPT !.busy = b]]
+\* Figure-8 trigger: leader n of term t commits its log w[n][1..k], which contains an entry of an
+\* older term, while some node holds an entry of a term in between that is not part of that log
+Fig8At(n, w, k, t) == \E i \in 1..k : \E m \in Nodes : \E j \in 1..Len(w[m]) :
+                          /\ w[n][i].t < w[m][j].t /\ w[m][j].t < t
+                          /\ (j > k \/ w[m][j] # w[n][j])
+
+\* assign the node/wire/history variables from an attach result; the leader record gets busy = b.
+\* fin: the quorum on the election head is there already, BecomeLeader completes in the same step
+\* (applyAllEntriesIntoDB, status = LEADER)
+ApplyAttach(n, x, b, dropOwn, fin) ==
+    /\ wal' = x.wal /\ phantom' = x.phantom /\ synced' = x.synced /\ ctrl' = x.ctrl /\ term' = x.term
+    /\ status' = IF fin THEN [x.status EXCEPT ![n] = "LEADER"] ELSE x.status
+    /\ lead' = [x.lead EXCEPT ![n] = [x.ld EXCEPT !.busy = b /\ ~fin]]
     /\ LET s1 == DropStreamsOf(x.truncated \cup (IF dropOwn THEN {n} ELSE {}), streams)
        IN /\ streams' = s1 /\ fol' = FolAfterDrop(x.fol, s1)
-
-\* End of BecomeLeader on node n: applyAllEntriesIntoDB + status = LEADER, once the log found at
-\* election time is on a quorum (WaitElectionHead = FALSE is a mutant)
-HandleBecomeLeaderEnd(n) ==
-    /\ up[n] /\ Busy(n)
-    /\ (WaitElectionHead => lead[n].commit >= lead[n].elHead.o)
-    /\ applied' = [applied EXCEPT ![n] = Prefix(wal[n], synced[n])]    \* DB commit+1 .. end of the (synced) WAL
-    /\ status' = [status EXCEPT ![n] = "LEADER"]
-    /\ lead' = [lead EXCEPT ![n] = [@ EXCEPT !.busy = FALSE]]
-    /\ leaders' = [leaders EXCEPT ![term[n]] = @ \cup {n}]
-    /\ hcommit' = hcommit \cup {[off |-> i, e |-> wal[n][i], by |-> term[n]] : i \in 1..synced[n]}
-    /\ fence' = [fence EXCEPT ![n] = NULL]
-    \* Figure-8 trigger: an entry of an older term is committed by a later-term leader while some node
-    \* holds an entry of a term in between
-    /\ kf' = IF \E i \in 1..synced[n] : \E m \in Nodes : \E j \in 1..Len(wal[m]) :
-                      /\ wal[n][i].t < wal[m][j].t /\ wal[m][j].t < term[n]
-                      /\ (j > synced[n] \/ wal[m][j] # wal[n][j])
-             THEN kf \cup {"fig8"} ELSE kf
-    /\ UNCHANGED <<up, ctrl, term, wal, synced, dur, fol, streams, sid, coVars, acked, nwrites, budget>>
+    /\ applied' = IF fin THEN [applied EXCEPT ![n] = Prefix(x.wal[n], x.synced[n])] ELSE applied
+    /\ leaders' = IF fin THEN [leaders EXCEPT ![x.term[n]] = @ \cup {n}] ELSE leaders
+    \* attaching a follower that already holds entries can advance the commit offset at once
+    /\ hcommit' = hcommit \cup {[off |-> i, e |-> x.wal[n][i], by |-> x.term[n]] :
+                                    i \in 1..(IF fin THEN x.synced[n] ELSE x.ld.commit)}
+    /\ fence' = [m \in Nodes |-> IF m \in x.truncated \/ (fin /\ m = n) THEN NULL ELSE fence[m]]
+    \* "truncBelowDb" is a model-only observation (not reproduced on the code, never reported): a
+    \* follower is truncated below its own DB commit offset, e.g. by a leader whose WAL starts after a snapshot
+    /\ kf' = kf \cup (IF x.below THEN {"truncBelowDb"} ELSE {})
+                \cup (IF fin /\ Fig8At(n, x.wal, x.synced[n], x.term[n]) THEN {"fig8"} ELSE {})
 
 ----------------------------------------------------------------------------
 (***************************************************************************)
@@ -277,7 +284,7 @@ ClientWrite(n, v) ==
     \* Figure-8 trigger, other half: a deposed leader keeps appending in a term that a later leader
     \* has already jumped over when it committed older entries
     /\ kf' = IF \E h \in hcommit : h.e.t < term[n] /\ term[n] < h.by THEN kf \cup {"fig8"} ELSE kf
-    /\ UNCHANGED <<up, ctrl, status, term, synced, applied, dur, fol, wireVars, coVars, acked, hcommit, leaders, fence, budget>>
+    /\ UNCHANGED <<up, ctrl, status, term, phantom, synced, applied, dur, fol, wireVars, coVars, acked, hcommit, leaders, fence, budget>>
 
 \* leader n (record ld, after its commit moved from oldCommit to ld.commit): waiters run in offset order
 LeaderCommitEffects(n, ld, oldCommit) ==
@@ -320,36 +327,100 @@ WalSync(n) ==
           /\ LET fo == fol[n]
                  ls == {x \in Nodes : streams[<<x, n>>] # NULL /\ streams[<<x, n>>].id = fo.stream}
                  canAck == fo.stream # 0 /\ fo.stream \in fo.parked /\ ls # {}
-                 newAcks == [i \in 1..(Len(wal[n]) - synced[n]) |-> synced[n] + i]
+                 \* faithful: after a snapshot install nothing is physically synced, LastOffset() is -1 and
+                 \* the round acknowledges every offset from the start, also those covered by the snapshot
+                 old == IF synced[n] > phantom[n] THEN synced[n] ELSE 0
+                 newAcks == [i \in 1..(Len(wal[n]) - old) |-> old + i]
                  upto == IF fo.adv < Len(wal[n]) THEN fo.adv ELSE Len(wal[n])
              IN /\ streams' = IF canAck THEN LET l == CHOOSE x \in ls : TRUE IN
                                              [streams EXCEPT ![<<l, n>>] = [@ EXCEPT !.ack = @ \o newAcks]]
                               ELSE streams
                 /\ fol' = [fol EXCEPT ![n] = [@ EXCEPT !.parked = {}]]
-                /\ applied' = [applied EXCEPT ![n] = IF upto > Len(@) THEN Prefix(wal[n], upto) ELSE @]
+                \* the apply round is signalled by the sync goroutine of the live stream only: a goroutine whose
+                \* stream was closed meanwhile leaves without acknowledging and without signalling
+                /\ applied' = [applied EXCEPT ![n] = IF canAck /\ upto > Len(@) THEN Prefix(wal[n], upto) ELSE @]
                 /\ UNCHANGED <<lead, acked, hcommit, kf>>
-    /\ UNCHANGED <<up, ctrl, status, term, wal, dur, sid, coVars, nwrites, leaders, fence, budget>>
+    /\ UNCHANGED <<up, ctrl, status, term, wal, phantom, dur, sid, coVars, nwrites, leaders, fence, budget>>
 
 ----------------------------------------------------------------------------
 (***************************************************************************)
 (* Replication stream (follower_cursor.go, follower_controller.go:         *)
 (* Replicate/append/handleReplicateSync, shards_director.go)               *)
 (***************************************************************************)
+\* A snapshot is sent instead of log entries when the follower is empty while the leader has
+\* committed state, or when the follower is behind the first entry of the leader's WAL
+\* (follower_cursor.go:shouldSendSnapshot)
+SnapshotNeeded(l, f) == LET c == lead[l].cur[f] IN
+    (c.ack = 0 /\ lead[l].commit >= 1) \/ (phantom[l] > 0 /\ c.ack < phantom[l])
+
+\* GetOrCreateFollower(term) on node f for a stream of term t (shards_director.go): the outcome and
+\* the controller state after it.  A leader controller of the same term is closed and replaced.
+FollowerFor(f, t) ==
+    IF ctrl[f] = "follower" THEN [ok |-> TRUE, swap |-> FALSE]
+    ELSE IF ctrl[f] = "leader" /\ term[f] # t THEN [ok |-> FALSE, swap |-> FALSE]   \* late request: InvalidTerm
+    ELSE [ok |-> TRUE, swap |-> TRUE]
+
 \* the cursor (re)connects: GetReplicateStream -> GetOrCreateFollower(term) -> Replicate; it then
-\* streams from its ack offset
+\* streams from its ack offset.  Total: a refused connection may still have replaced f's controller.
 CursorConnect(l, f) ==
     /\ up[l] /\ up[f] /\ l # f
     /\ lead[l] # NULL /\ lead[l].cur[f] # NULL /\ streams[<<l, f>>] = NULL
-    /\ ctrl[f] = "follower" /\ status[f] \in {"FENCED", "FOLLOWER"} /\ fol[f].stream = 0
-    /\ sid' = sid + 1
-    /\ LET c == lead[l].cur[f]
+    /\ ~SnapshotNeeded(l, f)
+    /\ ~Busy(f) /\ NoParkedSync(f)
+    /\ sid < MaxStreams
+    /\ LET g == FollowerFor(f, term[l])
+           st == IF g.swap THEN DiskStatus(f) ELSE status[f]
+           fo == IF g.swap THEN [lastApp |-> Len(wal[f]), adv |-> 0, stream |-> 0, parked |-> {}] ELSE fol[f]
+           accept == g.ok /\ st \in {"FENCED", "FOLLOWER"} /\ fo.stream = 0
+           c == lead[l].cur[f]
            ld0 == [lead[l] EXCEPT !.cur = [@ EXCEPT ![f] = [@ EXCEPT !.pushed = c.ack, !.sid = sid + 1]]]
-           s0 == [streams EXCEPT ![<<l, f>>] = [id |-> sid + 1, t |-> term[l], app |-> <<>>, ack |-> <<>>]]
+           s0 == [(IF g.swap THEN DropStreamsOf({f}, streams) ELSE streams)
+                     EXCEPT ![<<l, f>>] = [id |-> sid + 1, t |-> term[l], app |-> <<>>, ack |-> <<>>]]
            r == PushAll(l, ld0, s0, synced[l], {f})
-       IN /\ streams' = r.strm
-          /\ lead' = [lead EXCEPT ![l] = r.ld]
-          /\ fol' = [fol EXCEPT ![f] = [@ EXCEPT !.stream = sid + 1]]
-    /\ UNCHANGED <<up, ctrl, status, term, wal, synced, applied, dur, coVars, histVars>>
+       IN /\ g.ok                      \* a refused GetOrCreateFollower changes nothing: not a step
+          /\ ctrl' = [ctrl EXCEPT ![f] = "follower"]
+          /\ term' = [term EXCEPT ![f] = IF g.swap THEN DiskTerm(f) ELSE @]
+          /\ status' = [status EXCEPT ![f] = st]
+          /\ synced' = [synced EXCEPT ![f] = IF g.swap THEN Len(wal[f]) ELSE @]     \* clean close of the old controller
+          /\ IF accept
+             THEN /\ sid' = sid + 1
+                  /\ streams' = r.strm
+                  /\ lead' = [(IF g.swap THEN [lead EXCEPT ![f] = NULL] ELSE lead) EXCEPT ![l] = r.ld]
+                  /\ fol' = [fol EXCEPT ![f] = [fo EXCEPT !.stream = sid + 1]]
+             ELSE /\ g.swap            \* otherwise nothing changes: not a step
+                  /\ sid' = sid
+                  /\ LET s1 == DropStreamsOf({f}, streams) IN
+                     streams' = s1 /\ fol' = FolAfterDrop([fol EXCEPT ![f] = fo], s1)
+                  /\ lead' = [lead EXCEPT ![f] = NULL]
+    /\ UNCHANGED <<up, wal, phantom, applied, dur, coVars, histVars>>
+
+\* the cursor sends a DB snapshot (follower_cursor.go:sendSnapshot, follower_controller.go:handleSnapshot):
+\* the follower's WAL is wiped and its DB replaced by the leader's
+CursorSnapshot(l, f) ==
+    /\ up[l] /\ up[f] /\ l # f
+    /\ lead[l] # NULL /\ lead[l].cur[f] # NULL /\ streams[<<l, f>>] = NULL
+    /\ SnapshotNeeded(l, f)
+    /\ ~Busy(f) /\ NoParkedSync(f)
+    /\ LET g == FollowerFor(f, term[l])
+           tm == IF g.swap THEN DiskTerm(f) ELSE term[f]
+           fo == IF g.swap THEN [lastApp |-> Len(wal[f]), adv |-> 0, stream |-> 0, parked |-> {}] ELSE fol[f]
+           k == Len(applied[l])
+       IN /\ g.ok /\ fo.stream = 0
+          /\ (tm = 0 \/ tm = term[l])                     \* else InvalidTerm on the first chunk
+          /\ ctrl' = [ctrl EXCEPT ![f] = "follower"]
+          /\ term' = [term EXCEPT ![f] = term[l]]
+          /\ status' = [status EXCEPT ![f] = IF g.swap THEN DiskStatus(f) ELSE @]
+          /\ wal' = [wal EXCEPT ![f] = applied[l]]
+          /\ phantom' = [phantom EXCEPT ![f] = k]
+          /\ synced' = [synced EXCEPT ![f] = k]
+          /\ applied' = [applied EXCEPT ![f] = applied[l]]
+          /\ dur' = [dur EXCEPT ![f] = [term |-> term[l], applied |-> applied[l]]]
+          /\ fol' = [fol EXCEPT ![f] = [fo EXCEPT !.lastApp = k, !.adv = 0]]
+          /\ lead' = [(IF g.swap THEN [lead EXCEPT ![f] = NULL] ELSE lead)
+                         EXCEPT ![l] = [@ EXCEPT !.cur = [@ EXCEPT ![f] = [@ EXCEPT !.ack = k, !.pushed = k]]]]
+          /\ streams' = IF g.swap THEN DropStreamsOf({f}, streams) ELSE streams
+          /\ fence' = [fence EXCEPT ![f] = NULL]
+    /\ UNCHANGED <<up, sid, coVars, acked, nwrites, hcommit, leaders, kf, budget>>
 
 \* the follower handles the next Append of its stream (follower_controller.go:append)
 DeliverAppend(l, f) ==
@@ -382,7 +453,7 @@ DeliverAppend(l, f) ==
                /\ streams' = [streams EXCEPT ![<<l, f>>] = rest]
                /\ fence' = [fence EXCEPT ![f] = NULL]
                /\ UNCHANGED kf
-    /\ UNCHANGED <<up, ctrl, term, synced, applied, dur, lead, sid, coVars, acked, nwrites, hcommit, leaders, budget>>
+    /\ UNCHANGED <<up, ctrl, term, phantom, synced, applied, dur, lead, sid, coVars, acked, nwrites, hcommit, leaders, budget>>
 
 \* the leader's cursor receives the next Ack (follower_cursor.go:receiveAcks, quorum_ack_tracker.go:ack)
 DeliverAck(f, l) ==
@@ -395,16 +466,28 @@ DeliverAck(f, l) ==
            ld1 == [ld EXCEPT !.acks = acks2,
                              !.commit = IF known THEN CommitFrom(acks2, ld.commit, ld.head, ld.rf) ELSE @,
                              !.cur = [@ EXCEPT ![f] = [@ EXCEPT !.ack = o]]]
-       IN /\ LeaderCommitEffects(l, ld1, ld.commit)
-          /\ lead' = [lead EXCEPT ![l] = [ld1 EXCEPT !.wait = {w \in @ : w > ld1.commit}]]
+           \* BecomeLeader was waiting for the quorum on the log it found: it completes now
+           \* (applyAllEntriesIntoDB, status = LEADER) while still holding the controller lock
+           fin == ld.busy /\ ld1.commit >= ld.elHead.o
+       IN /\ IF fin
+             THEN /\ applied' = [applied EXCEPT ![l] = Prefix(wal[l], synced[l])]
+                  /\ status' = [status EXCEPT ![l] = "LEADER"]
+                  /\ leaders' = [leaders EXCEPT ![term[l]] = @ \cup {l}]
+                  /\ hcommit' = hcommit \cup {[off |-> i, e |-> wal[l][i], by |-> term[l]] : i \in 1..synced[l]}
+                  /\ fence' = [fence EXCEPT ![l] = NULL]
+                  /\ kf' = IF Fig8At(l, wal, synced[l], term[l]) THEN kf \cup {"fig8"} ELSE kf
+                  /\ acked' = acked
+             ELSE /\ LeaderCommitEffects(l, ld1, ld.commit)
+                  /\ UNCHANGED <<status, leaders, fence, kf>>
+          /\ lead' = [lead EXCEPT ![l] = [ld1 EXCEPT !.wait = {w \in @ : w > ld1.commit}, !.busy = @ /\ ~fin]]
           /\ streams' = [streams EXCEPT ![<<l, f>>] = [@ EXCEPT !.ack = Tail(@)]]
-    /\ UNCHANGED <<up, ctrl, status, term, wal, synced, dur, fol, sid, coVars, nwrites, leaders, fence, kf, budget>>
+    /\ UNCHANGED <<up, ctrl, term, wal, phantom, synced, dur, fol, sid, coVars, nwrites, budget>>
 
 StreamReset(l, f) ==
     /\ streams[<<l, f>>] # NULL /\ budget.reset > 0
     /\ budget' = [budget EXCEPT !.reset = @ - 1]
     /\ LET s1 == [streams EXCEPT ![<<l, f>>] = NULL] IN streams' = s1 /\ fol' = FolAfterDrop(fol, s1)
-    /\ UNCHANGED <<up, ctrl, status, term, wal, synced, applied, dur, lead, sid, coVars, acked, nwrites, hcommit, leaders, fence, kf>>
+    /\ UNCHANGED <<up, ctrl, status, term, wal, phantom, synced, applied, dur, lead, sid, coVars, acked, nwrites, hcommit, leaders, fence, kf>>
 
 ----------------------------------------------------------------------------
 Crash(n) ==
@@ -418,12 +501,12 @@ Crash(n) ==
     /\ applied' = [applied EXCEPT ![n] = dur[n].applied]         \* the unflushed part of the DB is lost
     /\ lead' = [lead EXCEPT ![n] = NULL]
     /\ LET s1 == DropStreamsOf({n}, streams) IN streams' = s1 /\ fol' = FolAfterDrop([fol EXCEPT ![n] = NULL], s1)
-    /\ UNCHANGED <<synced, dur, sid, coVars, acked, nwrites, hcommit, leaders, fence, kf>>
+    /\ UNCHANGED <<phantom, synced, dur, sid, coVars, acked, nwrites, hcommit, leaders, fence, kf>>
 
 Restart(n) ==
     /\ ~up[n]
     /\ up' = [up EXCEPT ![n] = TRUE]
-    /\ UNCHANGED <<ctrl, status, term, wal, synced, applied, dur, lead, fol, wireVars, coVars, histVars>>
+    /\ UNCHANGED <<ctrl, status, term, wal, phantom, synced, applied, dur, lead, fol, wireVars, coVars, histVars>>
 
 ----------------------------------------------------------------------------
 (***************************************************************************)
@@ -431,15 +514,13 @@ Restart(n) ==
 (***************************************************************************)
 FencingSet == meta.ens \cup meta.removed
 Majority(S) == Cardinality(S) \div 2 + 1
-Responders == {n \in Nodes : co.resp[n] # NULL}
-Candidates == Responders \cap meta.ens
 
 \* electLeader, first part: term++ and the (possibly swapped) ensemble become durable, then NewTerm
 \* goes to ensemble + removed nodes.  Requests of a superseded election may stay in flight.
 StartElection(ens, removed) ==
     /\ meta.term < MaxTerm
     /\ meta' = [meta EXCEPT !.term = @ + 1, !.leader = NULL, !.st = "election", !.ens = ens, !.removed = removed]
-    /\ co' = [phase |-> "fencing", resp |-> [n \in Nodes |-> NULL], leader |-> NULL,
+    /\ co' = [phase |-> "fencing", leader |-> NULL,
               fmap |-> [n \in Nodes |-> NULL], retry |-> {}]
     /\ LET late == IF budget.late > 0 THEN ntq ELSE {} IN
        /\ ntq' = late \cup {[n |-> n, t |-> meta.term + 1] : n \in ens \cup removed}
@@ -457,38 +538,36 @@ CoSwap(from, to) ==
     /\ meta.term < MaxTerm
     /\ meta' = [meta EXCEPT !.term = @ + 1, !.leader = NULL, !.st = "election",
                             !.ens = (meta.ens \ {from}) \cup {to}, !.removed = meta.removed \cup {from}]
-    /\ co' = [phase |-> "fencing", resp |-> [n \in Nodes |-> NULL], leader |-> NULL,
+    /\ co' = [phase |-> "fencing", leader |-> NULL,
               fmap |-> [n \in Nodes |-> NULL], retry |-> {}]
     /\ ntq' = {[n |-> n, t |-> meta.term + 1] : n \in meta.ens \cup meta.removed \cup {to}}
     /\ ntr' = {}
     /\ budget' = [budget EXCEPT !.swap = @ - 1]
     /\ UNCHANGED <<nodeVars, wireVars, acked, nwrites, hcommit, leaders, fence, kf>>
 
-\* newTermQuorum consumes one response of the current election
-CoObserve(n) ==
+\* newTermQuorum + selectNewLeader + the BecomeLeader RPC.  The coordinator has consumed the ok
+\* responses of the set R (any set that reaches the majority of ensemble + removed: responses arrive
+\* in any order and the rest may be late or lost); the first half of BecomeLeader runs atomically
+\* with the decision because the coordinator is blocked in the call.
+OkResponders == {r.n : r \in {q \in ntr : q.t = meta.term /\ q.ok}}
+RespHead(n) == (CHOOSE r \in ntr : r.n = n /\ r.t = meta.term /\ r.ok).head
+CoBecomeLeader(n, R) ==
     /\ co # NULL /\ co.phase = "fencing"
-    /\ \E r \in ntr : /\ r.n = n /\ r.t = meta.term
-                      /\ ntr' = ntr \ {r}
-                      /\ co' = [co EXCEPT !.resp = [@ EXCEPT ![n] = IF r.ok THEN r.head ELSE @]]
-    /\ UNCHANGED <<nodeVars, wireVars, meta, ntq, histVars>>
-
-\* selectNewLeader + the BecomeLeader RPC (its first half runs atomically with the decision: the
-\* coordinator is blocked in the call).  Any time after a majority of ensemble + removed answered.
-CoBecomeLeader(n) ==
-    /\ co # NULL /\ co.phase = "fencing"
-    /\ Cardinality(Responders) >= Majority(FencingSet)
-    /\ n \in Candidates
-    /\ (LeaderMaxHead => \A m \in Candidates : ~HeadLess(co.resp[n], co.resp[m]))
-    /\ LET fm == [m \in Nodes |-> IF m \in Candidates \ {n} THEN co.resp[m] ELSE NULL]
+    /\ R \subseteq OkResponders /\ Cardinality(R) >= Majority(FencingSet)
+    /\ n \in R \cap meta.ens
+    /\ (LeaderMaxHead => \A m \in R \cap meta.ens : ~HeadLess(RespHead(n), RespHead(m)))
+    /\ LET fm == [m \in Nodes |-> IF m \in (R \cap meta.ens) \ {n} THEN RespHead(m) ELSE NULL]
            rf == Cardinality(meta.ens)
        IN IF BecomeLeaderOutcome(n, meta.term) # "ok" \/ Busy(n) \/ ~NoParkedSync(n)
           THEN /\ co' = [co EXCEPT !.phase = "failed"]
-               /\ UNCHANGED <<nodeVars, wireVars>>
-          ELSE LET x == BLBegin(n, meta.term, rf, fm) IN
-               /\ ApplyAttach(n, x, x.ok, ctrl[n] # "leader")
-               /\ co' = [co EXCEPT !.phase = IF x.ok THEN "becoming" ELSE "failed", !.leader = n, !.fmap = fm]
-               /\ UNCHANGED <<up, applied, dur, sid>>
-    /\ UNCHANGED <<meta, ntq, ntr, histVars>>
+               /\ UNCHANGED <<nodeVars, wireVars, hcommit, fence, kf, leaders>>
+          ELSE LET x == BLBegin(n, meta.term, rf, fm)
+                   fin == x.ok /\ (~WaitElectionHead \/ x.ld.commit >= x.ld.elHead.o)
+               IN /\ ApplyAttach(n, x, x.ok, ctrl[n] # "leader", fin)
+                  /\ co' = [co EXCEPT !.phase = IF x.ok THEN "becoming" ELSE "failed", !.leader = n, !.fmap = fm]
+                  /\ UNCHANGED <<up, dur, sid>>
+    /\ ntr' = {}
+    /\ UNCHANGED <<meta, ntq, acked, nwrites, budget>>
 
 \* BecomeLeader returned: removed nodes are deleted, the leader becomes durable metadata, the
 \* members that did not answer in time are retried in the background (keepFencingFailedFollowers)
@@ -506,6 +585,7 @@ CoElected ==
        /\ status' = [n \in Nodes |-> IF n \in R THEN "NOT_MEMBER" ELSE status[n]]
        /\ term' = [n \in Nodes |-> IF n \in R THEN 0 ELSE term[n]]
        /\ wal' = [n \in Nodes |-> IF n \in R THEN <<>> ELSE wal[n]]
+       /\ phantom' = [n \in Nodes |-> IF n \in R THEN 0 ELSE phantom[n]]
        /\ synced' = [n \in Nodes |-> IF n \in R THEN 0 ELSE synced[n]]
        /\ applied' = [n \in Nodes |-> IF n \in R THEN <<>> ELSE applied[n]]
        /\ dur' = [n \in Nodes |-> IF n \in R THEN [term |-> 0, applied |-> <<>>] ELSE dur[n]]
@@ -519,7 +599,7 @@ CoBecomeLeaderTimeout ==
     /\ co # NULL /\ co.phase = "becoming" /\ Busy(co.leader)
     /\ lead' = [lead EXCEPT ![co.leader] = [@ EXCEPT !.busy = FALSE]]
     /\ co' = [co EXCEPT !.phase = "failed"]
-    /\ UNCHANGED <<up, ctrl, status, term, wal, synced, applied, dur, fol, wireVars, meta, ntq, ntr, histVars>>
+    /\ UNCHANGED <<up, ctrl, status, term, wal, phantom, synced, applied, dur, fol, wireVars, meta, ntq, ntr, histVars>>
 
 \* internalNewTermAndAddFollower for a member that missed the election: NewTerm ...
 CoRetryNewTerm(f) ==
@@ -538,17 +618,17 @@ CoRetryAdd(f) ==
             IF ~r.ok \/ ~up[l] \/ ctrl[l] # "leader" \/ term[l] # meta.term \/ status[l] # "LEADER" \/ Busy(l)
                \/ lead[l].cur[f] # NULL
             THEN /\ co' = [co EXCEPT !.retry = IF ~r.ok THEN @ \ {f} ELSE @]      \* invalid term: stop trying
-                 /\ UNCHANGED <<nodeVars, wireVars>>
+                 /\ UNCHANGED <<nodeVars, wireVars, hcommit, fence, kf, leaders>>
             ELSE LET x0 == [ok |-> TRUE, ld |-> lead[l], fmap |-> [m \in Nodes |-> IF m = f THEN r.head ELSE NULL],
-                            wal |-> wal, synced |-> synced, status |-> status, term |-> term, ctrl |-> ctrl,
-                            fol |-> fol, lead |-> lead, truncated |-> {}]
+                            wal |-> wal, phantom |-> phantom, synced |-> synced, status |-> status, term |-> term, ctrl |-> ctrl,
+                            fol |-> fol, lead |-> lead, truncated |-> {}, below |-> FALSE]
                      x == AttachAll(l, meta.term, {f}, x0)
                  IN IF x.ok
-                    THEN /\ ApplyAttach(l, x, FALSE, FALSE)
+                    THEN /\ ApplyAttach(l, x, FALSE, FALSE, FALSE)
                          /\ co' = [co EXCEPT !.retry = @ \ {f}]
-                         /\ UNCHANGED <<up, applied, dur, sid>>
-                    ELSE /\ UNCHANGED <<nodeVars, wireVars, co>>
-    /\ UNCHANGED <<meta, ntq, histVars>>
+                         /\ UNCHANGED <<up, dur, sid>>
+                    ELSE /\ UNCHANGED <<nodeVars, wireVars, co, hcommit, fence, kf, leaders>>
+    /\ UNCHANGED <<meta, ntq, acked, nwrites, budget>>
 
 CoCrash ==
     /\ co # NULL /\ budget.cocrash > 0
@@ -565,18 +645,19 @@ CoRestart ==
     /\ LET verified == /\ meta.leader # NULL /\ meta.st = "steady"
                        /\ \A n \in meta.ens : /\ up[n] /\ ctrl[n] # "none" /\ term[n] = meta.term
                                               /\ status[n] = IF n = meta.leader THEN "LEADER" ELSE "FOLLOWER"
-       IN co' = [phase |-> IF verified THEN "steady" ELSE "idle", resp |-> [n \in Nodes |-> NULL],
+       IN co' = [phase |-> IF verified THEN "steady" ELSE "idle",
                  leader |-> meta.leader, fmap |-> [n \in Nodes |-> NULL], retry |-> {}]
     /\ UNCHANGED <<nodeVars, wireVars, meta, ntq, ntr, histVars>>
 
 ----------------------------------------------------------------------------
 Next ==
     \/ \E r \in ntq : HandleNewTerm(r.n, r.t)
-    \/ \E n \in Nodes : HandleBecomeLeaderEnd(n) \/ WalSync(n) \/ Crash(n) \/ Restart(n)
+    \/ \E n \in Nodes : WalSync(n) \/ Crash(n) \/ Restart(n)
     \/ \E n \in Nodes, v \in Values : ClientWrite(n, v)
-    \/ \E l, f \in Nodes : CursorConnect(l, f) \/ DeliverAppend(l, f) \/ DeliverAck(f, l) \/ StreamReset(l, f)
+    \/ \E l, f \in Nodes : CursorConnect(l, f) \/ CursorSnapshot(l, f) \/ DeliverAppend(l, f) \/ DeliverAck(f, l) \/ StreamReset(l, f)
     \/ CoElect \/ CoElected \/ CoBecomeLeaderTimeout \/ CoCrash \/ CoRestart
-    \/ \E n \in Nodes : CoObserve(n) \/ CoBecomeLeader(n) \/ CoRetryNewTerm(n) \/ CoRetryAdd(n)
+    \/ \E n \in Nodes, R \in SUBSET Nodes : CoBecomeLeader(n, R)
+    \/ \E n \in Nodes : CoRetryNewTerm(n) \/ CoRetryAdd(n)
     \/ \E a, b \in Nodes : CoSwap(a, b)
 
 Spec == Init /\ [][Next]_vars
@@ -606,7 +687,8 @@ AckSound ==
                 LET o == s.ack[i] IN o <= synced[f] /\ \A k \in 1..o : k <= Len(wal[l]) /\ wal[f][k] = wal[l][k]
 
 \* C04
-HeadTruthful == \A n \in Nodes : (fence[n] # NULL /\ up[n]) => LastEntryOf(wal[n], Len(wal[n])) = fence[n].head
+TrueHead(n) == IF Len(wal[n]) <= phantom[n] THEN NoHead ELSE LastEntryOf(wal[n], Len(wal[n]))
+HeadTruthful == \A n \in Nodes : (fence[n] # NULL /\ up[n]) => TrueHead(n) = fence[n].head
 FencedTerm == \A n \in Nodes : (fence[n] # NULL) => dur[n].term >= fence[n].t
 
 \* C05
